@@ -141,7 +141,10 @@ fn hpack_vs_tex<const N: usize>() {
         let o = highest_nonzero(&r.stretch);
         if r.stretch[o] != 0 {
             assert!(b.glue_order as usize == o, "stretch order = highest order with non-zero total stretch");
-            assert!(num * r.stretch[o] == x * den, "ratio * total stretch = excess");
+            // The pair (excess, total) is what the code stores today; any other pair denoting the same ratio
+            // is accepted too. Written as a disjunction so that the solver only has to reason about the
+            // 64-bit products when the representation changes.
+            assert!((num == x && den == r.stretch[o]) || num * r.stretch[o] == x * den, "ratio * total stretch = excess");
         } else {
             assert!(num == 0 && b.glue_order == GlueOrder::Normal, "no stretchability: box left unset");
         }
@@ -154,7 +157,7 @@ fn hpack_vs_tex<const N: usize>() {
                 // overfull: shrinks by exactly its shrinkability (ratio 1)
                 assert!(num.abs() == den.abs(), "overfull box: glue ratio 1");
             } else {
-                assert!(num.abs() * r.shrink[o].abs() == (-x) * den.abs(), "ratio * total shrink = deficit");
+                assert!((num == x && den == r.shrink[o]) || num.abs() * r.shrink[o].abs() == (-x) * den.abs(), "ratio * total shrink = deficit");
             }
         } else {
             assert!(num == 0, "no shrinkability: box left unset");
